@@ -168,7 +168,7 @@ def bulk_job(arg):
 
 
 URLISH = ["/r/ready", "/r/ready?", "/r/ready#", "/r/ready;", "/r/ready?x=1", "/r/ready#frag", "/r/a\tb", "/r/ab", "/r/a b", "/r/a%20b", "/r/a+b", "/q/x;y/z", "/q/x/z", "/q/x;y;/z", "/w/a:b", "/w/a", "/w/'q'", "/w/\"q\"", "/w/q",
-          "/u/caf\u00e9", "/u/cafe\u0301", "/u/A", "/u/a"]
+          "/u/caf\u00e9", "/u/cafe\u0301", "/u/A", "/u/a", "/w/a%3Ab", "/w/a_b", "/w/a%3ab", "/w/run:1", "/w/run_1", "/w/run%3A1", "/w/a%25b", "/w/a%b"]
 
 OPS = ["store", "has", "fetch", "sync", "fetch_paths", "reopen", "has_absent", "fetch_absent", "fetch_paths_absent", "sync_other", "resync", "lose_blob_file"]
 
